@@ -8,7 +8,7 @@
    Not proved (see notes/C05.md): c05_expr_roundtrip / c05_policy_roundtrip on token lists — the
    token-level parser model is not part of this development yet; the expression / policy round trip
    is checked on the implementation by the oracle of vp/props/c05.py. *)
-From Cedar Require Import Unescape UnescapeProofs.
+From Cedar Require Import Unescape UnescapeProofs Relex RelexProofs.
 Open Scope N_scope.
 
 Theorem c05_escape :
@@ -22,6 +22,25 @@ Theorem c05_escape_pattern :
     wf_pattern p = true -> to_pattern (show_pattern np ge p) = UOk p.
 Proof. exact to_pattern_show. Qed.
 Print Assumptions c05_escape_pattern.
+
+(* the part of c05_lex_render that concerns quoted text: what the printer puts between quotes
+   (escape_debug for strings / ids / keys / annotation values, Display for Pattern) matches the inside
+   of the STRINGLIT token regex — no bare quote, no dangling backslash, no backslash-newline — so it
+   lexes back as ONE string token, whose content is then recovered by c05_escape / c05_escape_pattern. *)
+Theorem c05_escape_relex :
+  forall (np ge : N -> bool) (s : str), stringlit_inside (escape_debug np ge s) = true.
+Proof. exact escape_debug_relexes. Qed.
+Print Assumptions c05_escape_relex.
+
+Theorem c05_escape_pattern_relex :
+  forall (np ge : N -> bool) (p : pattern), stringlit_inside (show_pattern np ge p) = true.
+Proof. exact show_pattern_relexes. Qed.
+Print Assumptions c05_escape_pattern_relex.
+
+Example c05_relex_ex :
+  stringlit_inside [97; 34] = false /\ stringlit_inside [92] = false /\ stringlit_inside [92; 10] = false /\
+  stringlit_inside [92; 34; 92; 92] = true.
+Proof. vm_compute. repeat split. Qed.
 
 (* non-vacuity: concrete strings / patterns with quotes, backslash, NUL, star, a combining mark and a
    non-BMP character; predicates that escape the combining mark and U+200B *)
